@@ -47,6 +47,8 @@ def generate(rng, tier):
         if kind == "str" and rng.random() < 0.1:
             # NUL characters inside and at the end of strings (fixed-width NumPy strings cannot hold trailing NULs)
             vals = [v if v is None or rng.random() < 0.5 else rng.choice(["ab\x00", "e\x00f", "\x00", "ab"]) for v in vals]
+        if kind == "datetime" and rng.random() < 0.3 and all(v is None or 1700 < v.year < 2200 for v in vals):
+            kind = "datetime_ns"       # the same instants held in nanoseconds (what pandas and some readers produce)
         spec.append((f"c{j}" if rng.random() < 0.85 else rng.choice(["a b", "items", "日本"]) + str(j), kind, vals))
     return {"target": target, "spec": spec, "json_map": rng.random() < 0.6}
 
@@ -64,7 +66,7 @@ def execute(case):
     kinds = {name: kind for name, kind, _ in spec}
     na_mask = {k: [c == canon.NA for c in v] for k, v in pre.items()}
     ctx = f"{target}: spec {canon.short(spec, 900)}"
-    date_cols = {name: ("datetime64[D]" if kind == "date" else "datetime64[us]") for name, kind, _ in spec if kind in ("date", "datetime")}
+    date_cols = {name: ("datetime64[D]" if kind == "date" else "datetime64[us]") for name, kind, _ in spec if kind in ("date", "datetime", "datetime_ns")}
     iso_expected = False
     try:
         if target == "lod":
